@@ -176,6 +176,8 @@ def _inner(argv):
     order = list(range(len(shards)))
     random.Random(seed).shuffle(order)      # order only; the space is fixed
     budget = getattr(mod, "TIME_CAP", {}).get(tier)
+    if os.environ.get("MC_TIME_CAP"):       # smoke runs of a deep tier: stop submitting shards earlier (reported as a cap)
+        budget = min(budget or 10 ** 9, int(os.environ["MC_TIME_CAP"]))
 
     from concurrent.futures import ProcessPoolExecutor, as_completed
     import multiprocessing
